@@ -332,9 +332,10 @@ def so3_cell(method, res):
     return max(res, math.degrees(2 * math.asin(math.sqrt(1 / (n - 1)))))
 
 
-# covering radius <= COVER_C[method] * so3_cell(method, res); measured on the unchanged tree
+# covering radius <= COVER_C[method] * so3_cell(method, res); measured
 # (max over groups / strata / resolutions 12, 8, 6, 5): cubochoric 1.34, haar_euler 0.57
-# (outside the Phi = pi hole, where it is 1.02), quaternion 1.10
+# (also in the last cos(beta) interval next to Phi = pi, where it was 1.02 before the row
+# Phi = pi was added to the grid), quaternion 1.10
 COVER_C = {"cubochoric": 1.6, "quaternion": 1.4, "haar_euler": 0.85}
 ORES = [12.0, 8.0] if TIER == "quick" else [12.0, 8.0, 6.0, 5.0]
 NPROBE = 1600 if TIER == "quick" else 4000
@@ -379,8 +380,10 @@ for method in METHODS:
                 ang = chord2angle(best)
                 i = int(np.argmax(ang))
                 if method == "haar_euler":
-                    # separate the probes whose nearest equivalent lies beyond the last beta row
-                    # (the grid never reaches Phi = pi): they are reported under their own signature
+                    # separate the probes whose nearest equivalent lies in the last cos(beta)
+                    # interval [-1, -1 + 2/half] (before the repair of _euler_angles_haar_measure the
+                    # grid had no row Phi = pi at its end): they keep their own signature, so a
+                    # regression of that repair is reported as such
                     pe = qmul(Pq, g[arg])
                     Phi = 2 * np.arctan2(np.hypot(pe[:, 1], pe[:, 2]), np.hypot(pe[:, 0], pe[:, 3]))
                     n_steps = SO3._resolution_to_num_steps(res, even_only=True)
@@ -405,7 +408,8 @@ for method in METHODS:
                          f"symmetry-equivalent: more than {COVER_C[method]} x the grid's nominal cell "
                          f"{so3_cell(method, res):.2f} deg at resolution {res}", dict(rep, probe=p.tolist()))
 
-# ---- the cubochoric outer layer (rotations by pi) must be sampled: N * (L / N) <= L ?
+# ---- the cubochoric outer layer (rotations by pi) must be sampled, also for the N with
+# N * (L / N) > L in floating point (65, 130, 260)
 L = 0.5 * np.pi ** (2 / 3)
 for N in ([65] if TIER == "quick" else [65, 130]) + [10, 33, 64, 66]:
     if N > 70 and TIER == "quick":
